@@ -87,19 +87,8 @@ fn gen(seed: u64, idx: u64, _tier: Tier) -> Plan {
     let full = idx % 8 == 5;
     if full {
         plan.scenario = "c12.version_matrix_full_process".into();
-        s.mode = Mode::F;
         s.workers = *rng.pick(&[1i64, 1, 2, 3]);
-        s.source = if rng.chance(1, 2) { ConfigSource::File } else { ConfigSource::Env };
-        if rng.chance(1, 2) {
-            s.client_stats = Some((*rng.pick(&["on", "yes"])).into());
-            s.persist_dir = Some("/tmp".into());
-        }
-        if rng.chance(1, 2) {
-            s.status_interval = Some(*rng.pick(&[1i64, 10, 600]));
-        }
-        if rng.chance(1, 3) {
-            s.health_port = Some(8000 + rng.below(100) as i64);
-        }
+        process_settings(&mut rng, &mut s);
     }
     world_knobs(&mut rng, &mut plan, false);
     if rng.chance(1, 4) {
